@@ -9,6 +9,7 @@ VIOLATION line, and restores /repo (git checkout) afterwards.
 """
 import sys, os, subprocess, glob, json, re
 ROOT = os.path.dirname(os.path.dirname(os.path.abspath(__file__)))
+REPO = os.environ.get("VERIF_REPO", "/repo")   # a mutant lab (selftest/lab.sh) points this at its own worktree
 sys.path.insert(0, os.path.join(ROOT, "checklib"))
 
 MAP = {
@@ -24,13 +25,16 @@ def sh(cmd, **kw):
 
 def record(name, pid, status, nviol, nf):
     """selftest/results.json: last outcome per (patch, property); read by DESIGN.md's detection matrix"""
-    path = os.path.join(ROOT, "selftest", "results.json")
-    try:
-        data = json.load(open(path))
-    except Exception:
-        data = {}
-    data[name + " " + pid] = {"status": status, "violation_lines": nviol, "without_failing_input": nf}
-    json.dump(data, open(path, "w"), indent=1, sort_keys=True)
+    import fcntl
+    path = os.environ.get("VERIF_RESULTS", os.path.join(ROOT, "selftest", "results.json"))
+    with open(path + ".lock", "w") as lk:
+        fcntl.flock(lk, fcntl.LOCK_EX)
+        try:
+            data = json.load(open(path))
+        except Exception:
+            data = {}
+        data[name + " " + pid] = {"status": status, "violation_lines": nviol, "without_failing_input": nf}
+        json.dump(data, open(path, "w"), indent=1, sort_keys=True)
 
 
 def main():
@@ -38,7 +42,7 @@ def main():
     patches = sorted(glob.glob(os.path.join(ROOT, "selftest", "mutants", "*.diff")))
     for d in sorted(glob.glob(os.path.join(ROOT, "seeded", "*", "patch.diff"))):
         patches.append(d)
-    st = sh("git -C /repo status --porcelain").stdout.strip()
+    st = sh("git -C %s status --porcelain" % REPO).stdout.strip()
     if st:
         print("refusing: /repo has uncommitted changes"); return 2
     results = []
@@ -51,7 +55,7 @@ def main():
         else:
             meta = json.load(open(os.path.join(os.path.dirname(p), "meta.json")))
             props = [meta["property"]]
-        r = sh(["git", "-C", "/repo", "apply", p])
+        r = sh(["git", "-C", REPO, "apply", p])
         if r.returncode != 0:
             print(name, "patch does not apply:", r.stdout[-300:]); results.append((name, "no-apply")); continue
         try:
@@ -68,7 +72,7 @@ def main():
                 results.append((name, pid, status))
                 record(name, pid, status, len(viol), nf)
         finally:
-            sh("git -C /repo checkout -- .")
+            sh("git -C %s checkout -- ." % REPO)
     return 0
 
 
